@@ -2,6 +2,8 @@ package rux
 
 import (
 	"net/http"
+
+	"github.com/gookit/goutil"
 )
 
 /*************************************************************
@@ -77,6 +79,11 @@ func (r *Router) Use(middles ...HandlerFunc) {
 	}
 
 	// global middleware
+	finalSize := len(r.handlers) + len(middles)
+	if finalSize >= int(abortIndex) {
+		goutil.Panicf("too many handlers(number: %d)", finalSize)
+	}
+
 	r.handlers = append(r.handlers, middles...)
 }
 
